@@ -114,6 +114,9 @@ type faultObs struct {
 // storeCtxAll makes every case of enumerateFaults run over a context-honouring storage.
 var storeCtxAll bool
 
+// qCancelAll makes the cancel/block faults of enumerateFaults cancel through Query.Cancel.
+var qCancelAll bool
+
 var afterCase = core.Case{Q: `sum by (l) (b)`, W: core.Range(10000, 30000, 3), O: core.Opts{Optimizers: "none"}}
 
 func runFault(cs *core.Case, f mstore.Fault) faultObs {
@@ -164,7 +167,7 @@ func enumerateFaults(c *check.Ctx, prop, sub string, kinds map[string]bool, acti
 	c.Rep.Bounds[sub+":actions"] = actions
 	for _, v := range vs {
 		for _, w := range windows {
-			cs := &core.Case{Q: v.q, Data: data, W: w, O: core.Opts{Optimizers: "none"}, Note: sub, StoreCtx: storeCtxAll}
+			cs := &core.Case{Q: v.q, Data: data, W: w, O: core.Opts{Optimizers: "none"}, Note: sub, StoreCtx: storeCtxAll, QCancel: qCancelAll}
 			if v.ndist > 0 {
 				cs.NDist = v.ndist
 				cs.Dist = []int{0, 1, 0, 1, 0, 1, 0, 1}
@@ -378,6 +381,7 @@ func init() {
 	check.Replayers["enum:C17/fault"] = faultReplayer(c17Oracle)
 	check.Replayers["enum:C14/cancel"] = faultReplayer(c14EnumOracle)
 	check.Replayers["enum:C14/cancel+storectx"] = faultReplayer(c14EnumOracle)
+	check.Replayers["enum:C14/qcancel+storectx"] = faultReplayer(c14EnumOracle)
 
 	windows := []core.Window{core.Range(10000, 30000, 12), core.Instant(45000), core.Range(0, 45000, 3)}
 
@@ -398,6 +402,10 @@ func init() {
 		storeCtxAll = true
 		defer func() { storeCtxAll = false }()
 		enumerateFaults(c, "C14", "C14/cancel+storectx", allKinds, []string{"cancel", "block"}, c14EnumOracle, windows[:2], false)
+		// and with the cancellation coming through Query.Cancel instead of the context given to Exec
+		qCancelAll = true
+		defer func() { qCancelAll = false }()
+		enumerateFaults(c, "C14", "C14/qcancel+storectx", allKinds, []string{"cancel", "block"}, c14EnumOracle, windows[:2], true)
 	})
 	check.Register("C13/params", c13Params)
 }
